@@ -123,7 +123,7 @@ INVENTORY = [
     ("EventDataframeDataReader._clean_dataframe", "astype(int)", "non-integer event flag"),
     ("EventDataframeDataReader._clean_dataframe", "nunique()", "several events per subject"),
     ("EventDataframeDataReader._clean_dataframe", (".columns.tolist() !=",), "unexpected event columns"),
-    ("EventDataframeDataReader._clean_dataframe", ("$0.nb_events != ",), "configured number of events differs from the data"),
+    ("EventDataframeDataReader._clean_dataframe", ("$0.nb_events", " != "), "configured number of events differs from the data"),
     ("EventDataframeDataReader._clean_dataframe", ("not $0.nb_events",), "no event at all and no configured number"),
     ("JointDataframeDataReader._clean_dataframe", "index.equals", "subjects without visit or event"),
     ("JointDataframeDataReader._clean_dataframe", "-$0.tol_diff", "event before the last visit"),
